@@ -761,6 +761,8 @@ func checkC43(c *Ctx, r *Report) {
 		}
 	}
 	r.rule("C43.R3", "lastHeartbeat refreshed before every NONE heartbeat reply and on every JoinGroup", 2)
+	r.rule("C43.R5", "every generation bump re-arms the rebalance window: after generationID++ each path to a return stores time.Now().Add(rebalanceTimeout) into rebalanceDeadline; every other store of the deadline is the zero time or such a fresh value", 4)
+	checkDeadlineRearmed(m, r, "C43.R5")
 
 	dels := map[string][]ssa.Instruction{}
 	removers := map[string]bool{gstate + "removeExpiredMembers": true, gstate + "dropRebalanceLaggers": true, coord + "LeaveGroup": true}
@@ -1081,5 +1083,69 @@ func checkPersistUnderLock(m *Module, r *Report, rule string) {
 	}
 	if n == 0 {
 		r.unresolved(rule, "group state writes", "none found")
+	}
+}
+
+// checkDeadlineRearmed (C43.R5, added after a seeded change kept an expired deadline across the
+// follow-up rebalance): a generation bump resets every member to "has not rejoined", so the lagger
+// sweep may only act on a deadline armed at or after that bump.
+func checkDeadlineRearmed(m *Module, r *Report, rule string) {
+	fresh := func(v ssa.Value) bool {
+		return dependsOnCall(v, "(time.Time).Add") && dependsOnCall(v, "time.Now") && dependsOnField(v, "", "rebalanceTimeout")
+	}
+	isArm := func(in ssa.Instruction) bool {
+		if st, ok := in.(*ssa.Store); ok {
+			if fa, ok := st.Addr.(*ssa.FieldAddr); ok {
+				if t, f, _, ok := fieldAddrInfo(fa); ok && t == tGroupState && f == "rebalanceDeadline" {
+					return fresh(st.Val)
+				}
+			}
+		}
+		return isCallTo(in, gstate+"bumpRebalanceDeadline")
+	}
+	bumps := 0
+	for _, w := range fieldWriters(m, tGroupState, "generationID", false) {
+		bo, ok := strip(w.Val).(*ssa.BinOp)
+		if !ok || bo.Op != token.ADD {
+			continue // restored from the persisted record, not a bump
+		}
+		bumps++
+		r.fn(w.Fn)
+		key := "generation bump in " + funcName(w.Fn) + " re-arms rebalanceDeadline"
+		if ok, path := mustPassAfter(m, w.In, isArm); ok {
+			r.ok(rule, key, m.Pos(w.In.Pos()), "")
+		} else {
+			r.viol(rule, key, m.Pos(w.In.Pos()), "after the generation bump a return is reachable without a fresh time.Now().Add(rebalanceTimeout) deadline (the lagger sweep would act on the previous rebalance's deadline): "+path)
+		}
+	}
+	if bumps == 0 {
+		r.unresolved(rule, "generation bumps", "no generationID increment found")
+	}
+	n := 0
+	for _, w := range fieldWriters(m, tGroupState, "rebalanceDeadline", false) {
+		n++
+		key := fmt.Sprintf("deadline stored in %s is zero or fresh", funcName(w.Fn))
+		zero := false
+		if c, ok := strip(w.Val).(*ssa.Const); ok && c.Value == nil {
+			zero = true
+		}
+		if u, ok := w.Val.(*ssa.UnOp); ok && u.Op == token.MUL {
+			if a, ok := u.X.(*ssa.Alloc); ok {
+				zero = true
+				for _, ref := range *a.Referrers() {
+					if _, isStore := ref.(*ssa.Store); isStore {
+						zero = false
+					}
+				}
+			}
+		}
+		if zero || fresh(w.Val) {
+			r.ok(rule, key, m.Pos(w.In.Pos()), "")
+		} else {
+			r.viol(rule, key, m.Pos(w.In.Pos()), "stored value is "+describe(w.Val)+", neither time.Time{} nor time.Now().Add(rebalanceTimeout)")
+		}
+	}
+	if n == 0 {
+		r.unresolved(rule, "rebalanceDeadline stores", "none found")
 	}
 }
